@@ -137,6 +137,8 @@ type Scenario struct {
 	Plan       Plan     `json:"plan"`
 	// WatchdogS overrides the wall-clock watchdog (seconds) for scenarios that are expected to hang
 	WatchdogS int `json:"watchdog_s,omitempty"`
+	// NoHooks runs the binary without a fault plan (the hooks stay inert): for faults injected purely from outside
+	NoHooks bool `json:"no_hooks,omitempty"`
 	// StdoutDevFull connects stdout to the real /dev/full (every write fails with ENOSPC in the kernel)
 	StdoutDevFull bool `json:"stdout_dev_full,omitempty"`
 	// Strace injection (thorough tier): e.g. "renameat:error=EBUSY"
